@@ -144,7 +144,7 @@ func runC08(outer *testing.T) func(t rapid.TB, c sdCase, rec *vx.Case) {
 		const id = "C08"
 		sw := newSendWorld(outer)
 		w := sw.w
-		boundarySends := 0
+		boundarySends, boundaryOK, boundaryRej := 0, 0, 0
 		for i, op := range c.Ops {
 			w.StepNo = i
 			switch op.K {
@@ -359,6 +359,12 @@ func runC08(outer *testing.T) func(t rapid.TB, c sdCase, rec *vx.Case) {
 			rec.Class("send-%s", op.K)
 
 			nsKey := string(hostv2.NextSequenceSendKey(srcID))
+			if boundary && ok {
+				boundaryOK++
+			}
+			if boundary && !ok && len(guards) > 0 {
+				boundaryRej++
+			}
 			if !ok {
 				rec.Add("sends_rejected", 1)
 				if len(guards) > 0 {
@@ -441,7 +447,10 @@ func runC08(outer *testing.T) func(t rapid.TB, c sdCase, rec *vx.Case) {
 		if boundarySends > 0 {
 			rec.Class("boundary-timeout")
 		}
-		rec.NonTrivialIf(shared || boundarySends > 0)
+		if boundaryOK > 0 && boundaryRej > 0 {
+			rec.Class("boundary-timeout-both-sides")
+		}
+		rec.NonTrivialIf(shared || (boundaryOK > 0 && boundaryRej > 0))
 	}
 }
 
@@ -486,7 +495,7 @@ func genC08(t *rapid.T) sdCase {
 func TestC08(t *testing.T) {
 	vx.Check(t, vx.Prop[sdCase]{
 		ID:        "C08",
-		Rule:      "two chains; interleavings of v1 mock sends (keeper call), v1 ICS-20 MsgTransfer txs, MsgSendPacket on a v2 client pair, MsgSendPacket / MsgTransfer{UseAliasing} addressed to the aliases of the mock and the transfer channel, in both directions, with timeouts at the guards' boundaries (v1: client latest height +-1 incl. other revisions, latest consensus time +-1 ns; v2: block time +-1 s, block time + 24 h +-1 s, latest consensus time +-1 s) and environment ops (channel close / non-OPEN state, client frozen / zero height, clock moved to trusting-period expiry +-1 ns, client updates, sub-second clock steps); non-trivial = a successful v1 send and a successful alias send on the same channel id, or a send with a boundary timeout; distinct by full history",
+		Rule:      "two chains; interleavings of v1 mock sends (keeper call), v1 ICS-20 MsgTransfer txs, MsgSendPacket on a v2 client pair, MsgSendPacket / MsgTransfer{UseAliasing} addressed to the aliases of the mock and the transfer channel, in both directions, with timeouts at the guards' boundaries (v1: client latest height +-1 incl. other revisions, latest consensus time +-1 ns; v2: block time +-1 s, block time + 24 h +-1 s, latest consensus time +-1 s) and environment ops (channel close / non-OPEN state, client frozen / zero height, clock moved to trusting-period expiry +-1 ns, client updates, sub-second clock steps); non-trivial = a successful v1 send and a successful alias send on the same channel id, or boundary-timeout sends on both sides of a guard (one accepted and one rejected by a listed guard) in one history; distinct by full history",
 		MinNTFrac: 0.6,
 		Gen:       genC08,
 		Run:       runC08(t),
